@@ -37,6 +37,11 @@ func (c *Chip) findCAKey(keyID []byte) *CAKey {
 		// several keys and no identifier: the reference is ambiguous
 		return nil
 	}
+	if len(keyID) == 0 {
+		// a key reference data object without content names no key (the reference is the INTEGER's content
+		// octets, of which there is at least one: key identifier 0 is '00')
+		return nil
+	}
 	id := int(new(big.Int).SetBytes(keyID).Int64())
 	for _, k := range c.CA {
 		if k.KeyID != nil && *k.KeyID == id {
